@@ -115,8 +115,15 @@ func genHostileWarriors(t *rapid.T, c *hostileCase) {
 		m = 1
 	}
 	n := rapid.IntRange(1, 4).Draw(t, "nw")
+	many := gen.Rare(t, "manywarriors", 5)
+	if many {
+		n = rapid.SampledFrom([]int{17, 33, 64, 65, 66, 100, 130}).Draw(t, "nmany")
+	}
 	for i := 0; i < n; i++ {
 		maxLen := 8
+		if many {
+			maxLen = 2
+		}
 		if maxLen > m {
 			maxLen = m
 		}
@@ -128,9 +135,21 @@ func genHostileWarriors(t *rapid.T, c *hostileCase) {
 			fm = 3
 		}
 		c.Ws = append(c.Ws, gen.Warrior(fm, maxLen).Draw(t, "w"))
-		c.Offs = append(c.Offs, rapid.IntRange(0, 3*m).Draw(t, "off"))
+		off := rapid.IntRange(0, 3*m).Draw(t, "off")
+		if gen.Rare(t, "hugeoff", 4) {
+			off = rapid.SampledFrom([]int{-1, -2, -3, -7, -1 << 63, 1<<63 - 1, 1 << 32, 1<<32 - 1}).Draw(t, "hugeoffv")
+		}
+		c.Offs = append(c.Offs, off)
 	}
 	c.Run = rapid.IntRange(1, 400).Draw(t, "run")
+	if c.Cfg.CoreSize >= 8 && c.Cfg.CoreSize <= 256 && c.Cfg.Cycles >= 1 && gen.Rare(t, "longsplit", 6) {
+		// a splitter that cannot die, thousands of cycles, process limits in the hundreds and
+		// thousands that are not powers of two (the task count must saturate exactly at the limit)
+		c.Cfg.Processes = rapid.SampledFrom([]int{257, 300, 1000, 1025, 1500, 3000}).Draw(t, "Pbig")
+		c.Cfg.Cycles = 1 << 20
+		c.Run = rapid.IntRange(2*c.Cfg.Processes, 2*c.Cfg.Processes+1500).Draw(t, "runbig")
+		c.Ws[0] = ref.Warrior{Code: []ref.Instr{{Op: ref.SPL, Mod: ref.MB}, {Op: ref.JMP, Mod: ref.MB, A: c.Cfg.CoreSize - 1}}}
+	}
 }
 
 type addrRec struct {
@@ -193,7 +212,7 @@ func judgeHostile(c hostileCase, rec *hx.Rec) string {
 			return fmt.Sprintf("SpawnWarrior(%d,%d): %v", i, c.Offs[i], err)
 		}
 		for k := range code {
-			loaded[(c.Offs[i]+k)%m] = true
+			loaded[(offMod(c.Offs[i], m)+k)%m] = true
 		}
 	}
 	M := gmars.Address(m)
